@@ -174,13 +174,19 @@ Definition op_delete (t : table) (p u : Z) : table * result :=
   | None => (t, RErr)
   end.
 
-Definition op_rename (t : table) (p u : Z) (nm : bytes) : table * result :=
+(* [to_end]: the HDF5 back end renames by re-linking, which makes the node the LAST child of its parent;
+   ADF renames in place.  Child order is the one thing the two back ends define differently (C03 compares
+   child SETS); TreeDB takes the policy as a parameter of the file. *)
+Definition op_rename (to_end : bool) (t : table) (p u : Z) (nm : bytes) : table * result :=
   match find_node t u with
   | Some r =>
       if (n_parent r =? p) && negb (u =? root_uid) && name_ok nm then
         match find_child (children t p) nm with
         | Some _ => (t, RErr)            (* also when it is the node's own current name *)
-        | None => (replace_node t (mkN u p nm (n_label r) (n_dt r) (n_dims r) (n_data r) (n_link r)), ROk)
+        | None =>
+            let r' := mkN u p nm (n_label r) (n_dt r) (n_dims r) (n_data r) (n_link r) in
+            if to_end then (filter (fun x => negb (n_uid x =? u)) t ++ [r'], ROk)
+            else (replace_node t r', ROk)
         end
       else (t, RErr)
   | None => (t, RErr)
@@ -374,12 +380,12 @@ Inductive op :=
 | OReadSel (u : Z) (sel : list (Z * Z * Z)) (mdims : list Z) (msel : list (Z * Z * Z)) (mem : bytes)
 | ONChildren (u : Z) | OChildNames (u start n : Z) | OLookup (u : Z) (path : bytes) | OInfo (u what : Z).
 
-Definition step_table (t : table) (o : op) : table * result :=
+Definition step_table (to_end : bool) (t : table) (o : op) : table * result :=
   match o with
   | OCreate p u nm => op_create t p u nm
   | OLink p u nm f pa => op_link t p u nm f pa
   | ODelete p u => op_delete t p u
-  | ORename p u nm => op_rename t p u nm
+  | ORename p u nm => op_rename to_end t p u nm
   | OMove p u np => op_move t p u np
   | OLabel u l => op_label t u l
   | ODims u dt dims => op_dims t u dt dims
@@ -395,11 +401,43 @@ Definition step_table (t : table) (o : op) : table * result :=
   | OInfo u w => (t, op_info t u w)
   end.
 
-(* an operation on file f of the world; a file that was never created is an error *)
-Definition step (w : world) (f : Z) (o : op) : world * result :=
-  match get_file w f with
-  | Some t => let '(t', r) := step_table t o in (set_file w f t', r)
-  | None => (w, RErr)
+Definition is_mutator (o : op) : bool :=
+  match o with
+  | OCreate _ _ _ | OLink _ _ _ _ _ | ODelete _ _ | ORename _ _ _ | OMove _ _ _ | OLabel _ _ | ODims _ _ _
+  | OWriteAll _ _ | OWriteBlock _ _ _ _ | OWriteSel _ _ _ _ _ => true
+  | _ => false
   end.
 
-Definition new_file (w : world) (f : Z) : world := set_file w f empty_table.
+(* open modes: 0 = closed, 1 = read-only, 2 = read/write *)
+Fixpoint get_mode (m : list (Z * Z)) (f : Z) : Z :=
+  match m with [] => 0 | (g, x) :: rest => if g =? f then x else get_mode rest f end.
+Fixpoint set_mode (m : list (Z * Z)) (f x : Z) : list (Z * Z) :=
+  match m with
+  | [] => [(f, x)]
+  | (g, y) :: rest => if g =? f then (f, x) :: rest else (g, y) :: set_mode rest f x
+  end.
+
+(* s_pol f = 1 when file f is on the HDF5 back end (rename re-links), 0 for ADF *)
+Record session := mkS { s_world : world; s_modes : list (Z * Z); s_pol : list (Z * Z) }.
+Definition empty_session : session := mkS [] [] [].
+
+(* cgio_open_file: 'w' (2, creates/truncates), 'm' (2, must exist), 'r' (1, must exist) *)
+Definition open_file (s : session) (f : Z) (create : bool) (mode : Z) (pol : Z) : session * result :=
+  if negb (get_mode (s_modes s) f =? 0) then (s, RErr) else
+  if create then (mkS (set_file (s_world s) f empty_table) (set_mode (s_modes s) f 2) (set_mode (s_pol s) f pol), ROk)
+  else match get_file (s_world s) f with
+       | Some _ => (mkS (s_world s) (set_mode (s_modes s) f mode) (s_pol s), ROk)
+       | None => (s, RErr)
+       end.
+Definition close_file (s : session) (f : Z) : session * result :=
+  if get_mode (s_modes s) f =? 0 then (s, RErr) else (mkS (s_world s) (set_mode (s_modes s) f 0) (s_pol s), ROk).
+
+(* an operation on open file f; a closed handle, or a mutator on a read-only file, is an error and changes nothing *)
+Definition step (s : session) (f : Z) (o : op) : session * result :=
+  let md := get_mode (s_modes s) f in
+  if (md =? 0) || ((md =? 1) && is_mutator o) then (s, RErr) else
+  match get_file (s_world s) f with
+  | Some t => let '(t', r) := step_table (get_mode (s_pol s) f =? 1) t o in
+              (mkS (set_file (s_world s) f t') (s_modes s) (s_pol s), r)
+  | None => (s, RErr)
+  end.
